@@ -26,7 +26,7 @@ def main():
     out = "/tmp/mut/out_%s" % wname
     pid = wname[:3]  # "C03b" = second round for C03
     rnd = wname[3:]  # "" first round, "b" second, "c" third
-    keep_as = {"": {"A": "A", "B": "B"}, "b": {"A": "C", "B": "D"}, "c": {"A": "E", "B": "F"}, "d": {"A": "G", "B": "H"}, "e": {"A": "I", "B": "J"}}[rnd][which]
+    keep_as = {"": {"A": "A", "B": "B"}, "b": {"A": "C", "B": "D"}, "c": {"A": "E", "B": "F"}, "d": {"A": "G", "B": "H"}, "e": {"A": "I", "B": "J"}, "f": {"A": "I", "B": "J"}}[rnd][which]
     patch = "%s/patch%s.diff" % (out, which)
     demo = "%s/demo%s.py" % (out, which)
     notes = "%s/notes%s.txt" % (out, which)
